@@ -71,6 +71,9 @@ def dcar(x, how, poison=1.0):
 def cases(rng):
     """yield (mode, func, roles) where roles: name -> (kind, logical value)"""
     n = rng.choice([1, 2, 3, 5, 8, 12])
+    # "precision" family: an offset of 2^24 makes the 1/4 steps of the series unrepresentable in float32,
+    # so a carrier that is silently narrowed shows up (the f32 carrier itself is skipped for these cases)
+    OFF = float(2 ** 24) if rng.random() < 0.4 else 0.0
     t = gen.irregular(rng, n, steps=(1, 60, 61, 3600, 86400)) if rng.random() < 0.5 else gen.regular(n, rng.choice([1, 60, 900]))
     intvals = rng.random() < 0.25
     pm = 0 if intvals else rng.choice([0, 0.2, 0.4])
@@ -78,11 +81,12 @@ def cases(rng):
     z = [None if rng.random() < pm / 2 else float(rng.randrange(0, 6)) for _ in range(n)]
     lon = [None if rng.random() < pm / 2 else 10.0 + 0.25 * rng.randrange(0, 9) for _ in range(n)]
     lat = [None if rng.random() < pm / 2 else 50.0 + 0.125 * rng.randrange(0, 9) for _ in range(n)]
+    x = [None if v is None else v + OFF for v in x]
     D = ("data", x)
     Tm = ("time", t)
     return [
-        ("gross_range", "qartod.gross_range_test", {"inp": D, "fail_span": ("span", [-2, 4]), "suspect_span": ("span", [-1, 2])}),
-        ("valid_range", "axds.valid_range_test", {"inp": D, "valid_span": ("span", [-1, 3])}),
+        ("gross_range", "qartod.gross_range_test", {"inp": D, "fail_span": ("span", [-2 + OFF, 4 + OFF]), "suspect_span": ("span", [-1 + OFF, 2 + OFF])}),
+        ("valid_range", "axds.valid_range_test", {"inp": D, "valid_span": ("span", [-1 + OFF, 3 + OFF])}),
         ("spike-average", "qartod.spike_test", {"inp": D, "suspect_threshold": ("param", 0.5), "fail_threshold": ("param", 2)}),
         ("spike-differential", "qartod.spike_test", {"inp": D, "suspect_threshold": ("param", 0.5), "fail_threshold": ("param", 2),
                                                      "method": ("param", "differential")}),
@@ -97,8 +101,8 @@ def cases(rng):
                                                                 "min_obs": ("param", 2),
                                                                 "check_type": ("param", rng.choice(["std", "range"]))}),
         ("climatology", "qartod.climatology_test", {
-            "config": ("param", [{"tspan": ("2021-03-01T00:00:00", "2021-03-01T02:00:00"), "vspan": (0, 2), "fspan": [-2, 4]},
-                                 {"tspan": [3, 4], "period": "month", "vspan": [-1, 1], "zspan": (1, 4)}]),
+            "config": ("param", [{"tspan": ("2021-03-01T00:00:00", "2021-03-01T02:00:00"), "vspan": (0 + OFF, 2 + OFF), "fspan": [-2 + OFF, 4 + OFF]},
+                                 {"tspan": [3, 4], "period": "month", "vspan": [-1 + OFF, 1 + OFF], "zspan": (1, 4)}]),
             "inp": D, "tinp": Tm, "zinp": ("aux", z)}),
         ("density_inversion", "qartod.density_inversion_test", {"inp": D, "zinp": ("aux", z), "suspect_threshold": ("param", 0.5),
                                                                 "fail_threshold": ("param", -0.5)}),
@@ -120,6 +124,8 @@ def build(roles, vary=None, how=None, func=None):
         mine = name == vary
         if kind in ("data", "aux", "data-nomissing"):
             c = how if mine else "baseline"
+            if c == "f32" and kind != "aux" and any(v is not None and float(np.float32(v)) != v for v in val):
+                return None  # not the same logical series in float32
             if kind == "data-nomissing" and c in ("list-none", "tuple-none", "masked-finite", "masked-nan", "object"):
                 return None
             v = dcar(val, c, poison=POISON[len(val) % len(POISON)] if kind != "aux" else (val[0] if val and val[0] is not None else 1.0))
